@@ -20,6 +20,9 @@ ASSUMPTIONS = [
     "the extracted model on the byte transcript of every run)",
     "the S-expression parser (smt/parser.rs, property C14) is a parameter of the model: accepts/rejects; in the driver a small recognizer of "
     "((term value)) / (term*) replies stands in for it",
+    "a LIVE solver that has written a lexically incomplete reply (open parenthesis outside literals, unterminated string literal) and then "
+    "stays silent keeps the reader waiting: accepted (C15_blocked_only_on_open_reply shows it is the only way the repaired reader blocks); "
+    "every other hang is a violation",
     "solver output is valid UTF-8 and has no non-ASCII white space at the ends of a reply (Rust's read_line/trim would differ from the byte model)",
     "process-level facts are inputs of the model (what try_wait observes, whether a write hits a closed pipe); the shim makes them deterministic "
     "(it exits BEFORE the last bytes reach the client)",
@@ -55,7 +58,7 @@ def search_streams(tier, seed, diffs):
 MANIFEST = dict(
     level_text=("Coq theorems about the byte-level model of SmtLibSolverCtx (all streams, all messages, all client programs): the repaired reader "
                 "always returns (C15_read_total), sat/unsat only for an exact line (C15_sat_only_on_exact), error messages unmangled "
-                "(C15_error_unmangled), every client that propagates with `?` - BMC in particular - returns the first failure and a verdict only "
+                "(C15_error_unmangled, _plain), blocks only on an open reply of a live solver (C15_blocked_only_on_open_reply), every client that propagates with `?` - BMC in particular - returns the first failure and a verdict only "
                 "from intact replies (C15_bmc_propagates); the CURRENT reader is refuted on all three counts with concrete streams "
                 "(C15_read_total_refuted, C15_error_unmangled_refuted).  Tie to /repo: real bmc()/pdr() runs against z3 behind a fault-injecting "
                 "proxy, every response point x every fault kind, compared with the extracted model on the recorded bytes."),
